@@ -10,16 +10,31 @@ PROP = dict(
           "executed at least one allocator/runtime/code-generation operation after the start barrier; distinct = distinct case text. "
           "Overlap is measured, not assumed: classes overlap_cases_two_or_more_threads_inside_entry_points (a relaxed counter saw >=2 "
           "threads inside AsmJit entry points at once), max_simultaneously_inside_*, overlap_cases_window_two_or_more_threads / "
-          "overlap_window_ops (operations completed before the first thread finished its script)"),
+          "overlap_window_ops (operations completed before the first thread finished its script). "
+          "Cold start (cfg[0] = 3; a deterministic sweep of 7 thread counts x 19 operation mixes before the generated cases plus about 8% of "
+          "the generated cases, classes coldstart_*): the worker re-executes its own binary (/proc/self/exe --coldstart=<scenario>, fork+exec) "
+          "and in that FRESH process 2..16 threads are released together and each performs, as its very first library action, its generated "
+          "operation (CpuInfo::host(), JitRuntime construction, VirtMem::info(), large_page_size(), hardened_runtime_info(), Environment::host(), "
+          "a private JitAllocator with generated options incl. dual mapping / large pages + alloc/write/release, JitRuntime::add + call of a tiny "
+          "function, alloc_dual_mapping; generated start staggering in PAUSE counts, up to 3 follow-up operations); every observation must equal "
+          "the same operation repeated alone afterwards in the same process (coldstart-differs:<op>) and be sane (coldstart-insane:<op>: host "
+          "arch known, CPU features non-empty, page size = system page size ...); the child is the same ThreadSanitizer build, a report is key "
+          "coldstart-race:<global or function>; such a case is non-trivial when at least two threads had an operation and the child delivered its verdict"),
     assumptions=[
         "ThreadSanitizer build (-fsanitize=thread, ASMJIT_ASSERT active); any TSan report ends the worker with exit code 97 and is reported "
         "as key 'crash' with the running case as replay and the report in <replay>.log",
         "the schedule is the operating system's: absence of ThreadSanitizer reports and of model failures only covers the interleavings "
         "(more precisely: the unsynchronised access pairs) that actually occurred in the explored runs; a failing case may not reproduce "
         "from its replay file every time (the replay repeats the case 20 times internally, the driver replays 3 times)",
-        "host information (CpuInfo::host(), VirtMem::info(), large_page_size(), hardened_runtime_info(), anonymous-memory strategy / memfd "
-        "probes, one JitAllocator and one JitRuntime constructed and destroyed) is initialised on the main thread before any worker "
-        "thread exists, as the property states; races inside that lazy initialisation are outside the claim",
+        "modes A-C: host information (CpuInfo::host(), VirtMem::info(), large_page_size(), hardened_runtime_info(), anonymous-memory strategy / "
+        "memfd probes, one JitAllocator and one JitRuntime constructed and destroyed) is initialised on the main thread before any worker "
+        "thread exists, as the property states. The first use itself is exercised by the cold-start cases only (a few hundred fresh processes "
+        "per quick run): what is claimed there is that every thread obtains what it would obtain alone; a ThreadSanitizer report inside the "
+        "lazy initialisation is reported under its own key coldstart-race:<name>, and when that key is a listed known finding the report about "
+        "exactly that global/function is suppressed in the child (TSAN_OPTIONS suppressions; hits counted as exclusions) while the value "
+        "comparison stays active",
+        "a cold-start child is judged by its own verdict only (stdout verdict, exit code, ThreadSanitizer exit code 97 / stderr); a 150 s "
+        "alarm in the child is the only clock (safety net, reported as coldstart-hang)",
         "JitAllocator::reset() is documented as not thread-safe and is never called while threads run; the known single-threaded C09 "
         "defects are kept out of the way: the empty-block retention policy is not asserted, kDisableInitialPadding is not used and every "
         "span is an even number of granules (odd pool-0/1 spans of kUseMultiplePools stay under a per-thread byte budget) so that no block "
@@ -33,7 +48,8 @@ META = dict(
     engine="rapidcheck + std::thread + ThreadSanitizer",
     technique=("property-based concurrency testing: generated per-thread scripts run by real threads on one JitAllocator / JitRuntime or on "
                "private CodeHolders; oracles are ThreadSanitizer's happens-before race detection, a per-thread ownership model audited "
-               "at a barrier (union of the models vs. statistics, disjointness, contents), and byte equality with a single-threaded reference"),
+               "at a barrier (union of the models vs. statistics, disjointness, contents), and byte equality with a single-threaded reference; "
+               "first use of the library by several threads at once is tested in re-executed fresh processes against a single-threaded repetition"),
     level_text=("Exploration: thousands (quick) to tens of thousands (thorough) of scripts with 2-16 threads. ThreadSanitizer reports an "
                 "unsynchronised access pair whenever both accesses occur in a run, without needing the harmful interleaving, so a removed "
                 "or narrowed lock and hidden global mutable state are found reliably (see sensitivity); nothing is claimed about "
